@@ -168,6 +168,47 @@ def dictSet : Dict → String → Int → Dict
 /-- `len(x)` -/
 def len {α} (l : List α) : Int := (l.length : Nat)
 
+/-- `functools.reduce(f, l, init)` for a pure `f` -/
+def reduce {α β} (f : β → α → β) (l : List α) (init : β) : β := l.foldl f init
+
+/-- `for x in l: <body>` where the body is a function of `x` and of the variables it assigns (`σ`: their values before
+    an iteration, handed on after it); an exception raised in the body ends the loop.  The list is not changed by the
+    body (the translator checks that). -/
+def forEach {α σ} : List α → σ → (α → σ → Except PyErr σ) → Except PyErr σ
+  | [], s, _ => .ok s
+  | x :: r, s, f =>
+    match f x s with
+    | .error e => .error e
+    | .ok s' => forEach r s' f
+
+@[simp] theorem reduce_nil {α β} (f : β → α → β) (init : β) : reduce f [] init = init := rfl
+@[simp] theorem reduce_cons {α β} (f : β → α → β) (x : α) (l : List α) (init : β) :
+    reduce f (x :: l) init = reduce f l (f init x) := rfl
+@[simp] theorem forEach_nil {α σ} (s : σ) (f : α → σ → Except PyErr σ) : forEach [] s f = .ok s := rfl
+theorem forEach_cons {α σ} (x : α) (r : List α) (s : σ) (f : α → σ → Except PyErr σ) :
+    forEach (x :: r) s f = (f x s >>= fun s' => forEach r s' f) := by
+  simp only [forEach]; cases f x s <;> rfl
+theorem forEach_cons_ok {α σ} (x : α) (r : List α) (s s' : σ) (f : α → σ → Except PyErr σ) (h : f x s = .ok s') :
+    forEach (x :: r) s f = forEach r s' f := by simp only [forEach, h]
+theorem forEach_cons_error {α σ} (x : α) (r : List α) (s : σ) (e : PyErr) (f : α → σ → Except PyErr σ)
+    (h : f x s = .error e) : forEach (x :: r) s f = .error e := by simp only [forEach, h]
+/-- a loop whose body never raises is a fold -/
+theorem forEach_pure {α σ} (l : List α) (s : σ) (g : α → σ → σ) :
+    forEach l s (fun x s => .ok (g x s)) = .ok (l.foldl (fun s x => g x s) s) := by
+  induction l generalizing s with
+  | nil => rfl
+  | cons x r ih => simp only [forEach, List.foldl_cons, ih]
+/-- a loop is the same as the loop over a prefix followed by the loop over the rest -/
+theorem forEach_append {α σ} (a b : List α) (s : σ) (f : α → σ → Except PyErr σ) :
+    forEach (a ++ b) s f = (forEach a s f >>= fun s' => forEach b s' f) := by
+  induction a generalizing s with
+  | nil => rfl
+  | cons x r ih =>
+    simp only [List.cons_append, forEach]
+    cases f x s with
+    | error e => rfl
+    | ok s' => exact ih s'
+
 /-- `a & b` on Python ints (two's complement of unbounded width) -/
 def band (a b : Int) : Int :=
   match a, b with
